@@ -98,16 +98,17 @@ def make_configs(r, n):
 
 
 def sched_configs(r, tier):
-    """Runs whose completion order is dictated: every prefix of choices of
-    length D (which of the blocked checks finishes next) x tail policy, over a
+    """Runs whose completion order is dictated: every sequence of D choices
+    (which of the blocked checks finishes next; afterwards the run is left to
+    itself), over a
     parallel-ddmin input (every third assertion must stay) and a permissive
     hierarchical input."""
     import itertools
     out = []
-    plans = [(2, 3), (3, 1)] if tier == 'quick' else [(2, 6), (3, 4), (4, 3)]
+    plans = [(2, 4), (3, 2)] if tier == 'quick' else [(2, 9), (3, 6), (4, 4)]
     for jobs, depth in plans:
         for strat in ('ddmin', 'hierarchical'):
-            na = 12
+            na = 9
             text = ('(set-logic QF_LIA)\n(declare-const x Int)\n' +
                     ''.join(f'(assert (> x {k + 100}))\n' for k in range(na))
                     + '(check-sat)\n')
@@ -117,9 +118,12 @@ def sched_configs(r, tier):
                 keep = ['100']
             spec = {'mode': 'contains', 'markers': ['check-sat'] + keep}
             for choices in itertools.product(range(jobs), repeat=depth):
-                for tail in ('fifo', 'lifo'):
+                for tail in ('free', ):
+                    # (only the erase mutator: the property is about the
+                    # strategies, and the runs stay short)
                     out.append((text, dict(spec),
-                                ['--strategy', strat, '-j', str(jobs)],
+                                ['--strategy', strat, '-j', str(jobs),
+                                 '--disable-all', '--erase-node'],
                                 {'strategy': strat, 'jobs': jobs,
                                  'n': f's{jobs}{strat}{choices}{tail}',
                                  'sched': {'jobs': jobs,
@@ -165,7 +169,7 @@ def main():
         'configurations; runs: seeded configurations (input x command x '
         'strategy x -j 2/3/4) executed free-running and validated by TLC; '
         'plus runs whose completion order is dictated by a scheduler the '
-        'command talks to (all choice prefixes x fifo/lifo tails); '
+        'command talks to (all choice sequences of a depth); '
         'non-trivial = a run with >= 2 adoptions in which at least one '
         'success was discarded; distinct by (input, command, options)')
     rep.assumptions += [
